@@ -87,7 +87,9 @@ func (root *Root) ResolveExecutable(
 	if 0 < len(op.Variables) {
 		opVars = map[string]interface{}{}
 		for _, vd := range op.Variables {
-			opVars[vd.Name] = vd.Default
+			// Coercion fills in and converts members of lists and input
+			// objects in place so work on a copy of the default.
+			opVars[vd.Name] = dupValue(vd.Default)
 			if vars != nil {
 				if v := vars[vd.Name]; v != nil {
 					if ic, _ := vd.Type.(InCoercer); ic != nil { // validated in SDL validation
@@ -429,7 +431,7 @@ func (root *Root) formArgs(
 	// appropriate.
 	if 0 < len(field.Args) {
 		args = map[string]interface{}{}
-		for _, av := range field.Args {
+		for _, av := range field.sortedArgs() {
 			if av != nil {
 				var at Type
 				if fd != nil {
@@ -477,15 +479,18 @@ func (root *Root) replaceArgVars(vars map[string]interface{}, v interface{}, at 
 		}
 	case map[string]interface{}:
 		if it, _ := nt.(*Input); it != nil {
+			// Build a new object, the literal in the request must stay as
+			// it was written so the request can be resolved again.
+			obj := make(map[string]interface{}, len(tv))
 			for k, v := range tv {
 				var vt Type
 				if f := it.fields.get(k); f != nil {
 					vt = f.Type
 				}
-				tv[k], ea2 = root.replaceArgVars(vars, v, vt)
+				obj[k], ea2 = root.replaceArgVars(vars, v, vt)
 				ea = append(ea, ea2...)
 			}
-			if val, err = it.CoerceIn(val); err != nil {
+			if val, err = it.CoerceIn(obj); err != nil {
 				ea = append(ea, resWarnp(nil, "%s", err))
 			}
 		} else if at != nil {
@@ -503,10 +508,13 @@ func (root *Root) replaceArgVars(vars map[string]interface{}, v interface{}, at 
 		if lt != nil {
 			mt = lt.Base
 		}
+		// A new list for the same reason a new object is built.
+		list := make([]interface{}, len(tv))
 		for i, v := range tv {
-			tv[i], ea2 = root.replaceArgVars(vars, v, mt)
+			list[i], ea2 = root.replaceArgVars(vars, v, mt)
 			ea = append(ea, ea2...)
 		}
+		val = list
 	case Symbol:
 		if et, _ := nt.(*Enum); et != nil {
 			if _, has := et.values.dict[string(tv)]; !has {
@@ -527,6 +535,25 @@ func (root *Root) replaceArgVars(vars map[string]interface{}, v interface{}, at 
 		}
 	}
 	return
+}
+
+// dupValue makes a deep copy of the lists and objects of a value.
+func dupValue(v interface{}) interface{} {
+	switch tv := v.(type) {
+	case []interface{}:
+		list := make([]interface{}, len(tv))
+		for i, m := range tv {
+			list[i] = dupValue(m)
+		}
+		v = list
+	case map[string]interface{}:
+		obj := make(map[string]interface{}, len(tv))
+		for k, m := range tv {
+			obj[k] = dupValue(m)
+		}
+		v = obj
+	}
+	return v
 }
 
 func (root *Root) resolveField(
@@ -772,7 +799,7 @@ func (root *Root) formReflectArgs(ov reflect.Value, vars map[string]interface{},
 	args = append(args, ov)
 	// Build the args by combining provided args and variable values as
 	// appropriate.
-	for _, av := range field.Args {
+	for _, av := range field.sortedArgs() {
 		if vr, ok := av.Value.(Var); ok && vars != nil {
 			args = append(args, reflect.ValueOf(vars[string(vr)]))
 		} else {
